@@ -101,6 +101,15 @@ func (e *C14) one(ctx *core.Ctx) {
 	eds.Status.Current, eds.Status.Ready, eds.Status.Desired, eds.Status.UpToDate = int32(r.Intn(9)), int32(r.Intn(9)), int32(r.Intn(9)), int32(r.Intn(9))
 	eds.Status.Reason = []v1.ExtendedDaemonSetStatusReason{"", "", "CrashLoopBackOff", "ImagePullBackOff"}[r.Intn(4)]
 	eds.Status.State = []v1.ExtendedDaemonSetStatusState{"", v1.ExtendedDaemonSetStatusStateCanary, v1.ExtendedDaemonSetStatusStateRunning, v1.ExtendedDaemonSetStatusStateCanaryFailed}[r.Intn(4)]
+	// conditions left by earlier reconciles, possibly about another replica set and another cause
+	switch r.Intn(4) {
+	case 0:
+		eds.Status.Conditions = append(eds.Status.Conditions, v1.ExtendedDaemonSetCondition{Type: v1.ConditionTypeEDSCanaryPaused, Status: corev1.ConditionTrue, Reason: "Unknown", Message: "canary paused with ers: foo-old",
+			LastTransitionTime: metav1.NewTime(now.Add(-time.Minute)), LastUpdateTime: metav1.NewTime(now.Add(-time.Minute))})
+	case 1:
+		eds.Status.Conditions = append(eds.Status.Conditions, v1.ExtendedDaemonSetCondition{Type: v1.ConditionTypeEDSCanaryPaused, Status: corev1.ConditionFalse,
+			LastTransitionTime: metav1.NewTime(now.Add(-time.Minute)), LastUpdateTime: metav1.NewTime(now.Add(-time.Minute))})
+	}
 	s.Inject(eds)
 	for _, rs := range all {
 		s.Inject(rs)
